@@ -13,8 +13,10 @@ def x_only(prop, level="proof", explanation=None):
         run_x(out, progs, prop)
         if prop in ("C06", "C11"):
             gen.add_obligations(out, prop)
-        from . import meta
+        from . import meta, pt
         meta.add_obligations(out, prop)
+        if prop in ("C01", "C02", "C03", "C04", "C05", "C16"):
+            pt.add_obligations(out, prop)
         return finish(out, level, KANI_CMD, explanation)
     return f
 
